@@ -96,8 +96,12 @@ class Mismatch:
 
 
 class Typer:
-    def __init__(self, fn: ast.FunctionDef, seeds: dict | None = None, params: dict | None = None, call_sigs: dict | None = None, where=""):
+    def __init__(self, fn: ast.FunctionDef, seeds: dict | None = None, params: dict | None = None, call_sigs: dict | None = None, where="", methods: dict | None = None, depth=0):
         self.fn = fn
+        self.methods = methods or {}
+        self.depth = depth
+        self.seeds0 = dict(seeds or {})
+        self.returns: list = []
         self.env = dict(seeds or {})
         self.params = params or {}
         self.call_sigs = call_sigs or {}
@@ -131,7 +135,7 @@ class Typer:
         elif isinstance(s, ast.Expr):
             self.expr(s.value)
         elif isinstance(s, ast.Return) and s.value is not None:
-            self.expr(s.value)
+            self.returns.append(self.expr(s.value))
         elif isinstance(s, ast.If):
             self.expr(s.test)
             before = dict(self.env)
@@ -352,13 +356,14 @@ class Typer:
             for a in args:
                 self.expr(a)
             return ()
-        if isinstance(c.func, ast.Attribute) and c.func.attr in ("copy", "astype", "round", "conj", "ravel") and not f.startswith("np."):
+        if isinstance(c.func, ast.Attribute) and c.func.attr in ("copy", "astype", "round", "conj", "ravel") and not (isinstance(c.func.value, ast.Name) and c.func.value.id in ("np", "numpy")):
             t = self.expr(c.func.value)
             return t if c.func.attr != "ravel" else None
         if isinstance(c.func, ast.Attribute) and c.func.attr in ("transpose",) and not c.args:
             t = self.expr(c.func.value)
             return tuple(reversed(t)) if t is not None and len(t) == 2 else None
         if isinstance(c.func, ast.Attribute) and c.func.attr == "reshape":
+            self.expr(c.func.value)
             return None
         if isinstance(c.func, ast.Attribute) and c.func.attr in ("get_cell",):
             return (L(lattice_label(core.src(c.func.value)), "-"), C)
@@ -366,6 +371,28 @@ class Typer:
             return (A, L(lattice_label(core.src(c.func.value)), "+"))
         if isinstance(c.func, ast.Attribute) and c.func.attr in ("get_positions",):
             return (A, C)
+        # methods of the same class: type the callee with the argument types (one or two levels deep)
+        if isinstance(c.func, ast.Attribute) and isinstance(c.func.value, ast.Name) and c.func.value.id == "self" and c.func.attr in self.methods and self.depth < 2:
+            m = self.methods[c.func.attr]
+            ps = [a.arg for a in m.args.args][1:]
+            binding = {}
+            for pn, a in zip(ps, args):
+                t = self.expr(a)
+                if t is not None:
+                    binding[pn] = t
+            for k in c.keywords:
+                if k.arg in ps:
+                    t = self.expr(k.value)
+                    if t is not None:
+                        binding[k.arg] = t
+            sub = Typer(m, seeds={k: v for k, v in self.seeds0.items() if k.startswith("self.")}, params=binding, call_sigs=self.call_sigs, where=self.where, methods=self.methods, depth=self.depth + 1)
+            sub.run()
+            self.problems.extend(sub.problems)
+            self.n_typed += sub.n_typed
+            rets = [r for r in sub.returns if r is not None]
+            if rets and all(r == rets[0] for r in rets):
+                return rets[0]
+            return None
         # declared signatures
         name = c.func.attr if isinstance(c.func, ast.Attribute) else (c.func.id if isinstance(c.func, ast.Name) else None)
         sig = self.call_sigs.get(f) or self.call_sigs.get(name)
